@@ -1,3 +1,41 @@
+/-
+C12 — proofs about the boxes that `ArcCorrection::set_up` hands to `overlap_interpolate` (repaired code, fix C12-5):
+the arc-corrected boxes are contiguous, all of width `tangential_sampling`, and box `tp` is centred at `tp * sampling`.
+(`overlap_interpolate` itself is tied to the code by the correspondence run only.)
+-/
 import StirVerif.C12.Model
+import Mathlib.Tactic.Ring
+import Mathlib.Tactic.Linarith
+import Mathlib.Tactic.NormNum
+import Mathlib.Algebra.Order.Field.Rat
+
 namespace StirVerif.C12
+
+theorem arcCorrCoords_length (minTang maxTang : Int) (sampling : Rat) :
+    (arcCorrCoords minTang maxTang sampling).length = (maxTang - minTang + 1).toNat + 1 := by
+  unfold arcCorrCoords; simp
+
+/-- `_arccorr_coords[minTang + k] = (minTang + k - 1/2) * sampling` for `k = 0 … number of bins` -/
+theorem arcCorrCoords_get (minTang maxTang : Int) (sampling : Rat) (k : Nat) (hk : k ≤ (maxTang - minTang + 1).toNat) :
+    (arcCorrCoords minTang maxTang sampling)[k]? = some ((((minTang + (k : Int) : Int) : Rat) - 1/2) * sampling) := by
+  unfold arcCorrCoords
+  rw [List.getElem?_map, List.getElem?_range (by omega)]
+  rfl
+
+/-- **every arc-corrected box has width `sampling` and box `tp` is `[(tp - 1/2)·sampling, (tp + 1/2)·sampling]`**,
+    including the last one (`tp = maxTang`) -/
+theorem arcCorrCoords_box (minTang maxTang : Int) (sampling : Rat) (tp : Int) (h1 : minTang ≤ tp) (h2 : tp ≤ maxTang) :
+    (arcCorrCoords minTang maxTang sampling)[(tp - minTang).toNat]? = some (((tp : Rat) - 1/2) * sampling) ∧
+    (arcCorrCoords minTang maxTang sampling)[(tp - minTang).toNat + 1]? = some (((tp : Rat) + 1/2) * sampling) := by
+  constructor
+  · rw [arcCorrCoords_get _ _ _ _ (by omega)]
+    have : minTang + (((tp - minTang).toNat : Nat) : Int) = tp := by omega
+    rw [this]
+  · rw [arcCorrCoords_get _ _ _ _ (by omega)]
+    have : minTang + (((tp - minTang).toNat + 1 : Nat) : Int) = tp + 1 := by omega
+    rw [this]
+    congr 1
+    push_cast
+    ring
+
 end StirVerif.C12
